@@ -364,6 +364,46 @@ func (e *Env) evalIdent(name string) Val {
 	if p, ok := e.x.prog.contracts.Pures[name]; ok && len(p.Params) == 0 {
 		return e.applyPure(p, nil)
 	}
+	// a variable of an enclosing function that this closure does not (or no longer) capture: the clause still means
+	// that variable, whose value is unknown here
+	if e.fr != nil {
+		for par := e.fr.fn.Parent(); par != nil; par = par.Parent() {
+			var t types.Type
+			for _, prm := range par.Params {
+				if prm.Name() == name {
+					t = prm.Type()
+				}
+			}
+			if t == nil {
+				for _, fv := range par.FreeVars {
+					if fv.Name() == name {
+						t = deref(fv.Type())
+					}
+				}
+			}
+			if t == nil {
+				for _, b := range par.Blocks {
+					for _, ins := range b.Instrs {
+						if a, ok := ins.(*ssa.Alloc); ok && a.Comment == name && t == nil {
+							t = deref(a.Type())
+						}
+					}
+				}
+			}
+			if t != nil {
+				if e.x.outerVars == nil {
+					e.x.outerVars = map[string]Val{}
+				}
+				if v, ok := e.x.outerVars[name]; ok {
+					return v
+				}
+				v := e.x.entry.freshVal(t, "outer_"+sanitize(name))
+				e.x.outerVars[name] = v
+				e.x.noteAbstraction("clause names " + name + ", a variable of the enclosing function that this closure does not capture: treated as an unknown value")
+				return v
+			}
+		}
+	}
 	e.fail("unknown identifier %q", name)
 	return Val{}
 }
